@@ -72,6 +72,17 @@ func dumpAST(w io.Writer, v reflect.Value, seen map[uintptr]bool) {
 			dumpAST(w, v.Index(i), seen)
 			io.WriteString(w, ",")
 		}
+		// the spare capacity of the backing array belongs to the document too: whoever holds this slice (or a
+		// copy of its header) and appends to it writes there, and every request that shares the cached document
+		// shares that array. gqlparser leaves it zeroed; it must stay as it was when the document was cached.
+		if v.Kind() == reflect.Slice && v.Cap() > v.Len() {
+			full := v.Slice3(0, v.Cap(), v.Cap())
+			fmt.Fprintf(w, "|spare %d:", v.Cap()-v.Len())
+			for i := v.Len(); i < v.Cap(); i++ {
+				dumpAST(w, full.Index(i), seen)
+				io.WriteString(w, ",")
+			}
+		}
 		io.WriteString(w, "]")
 	case reflect.Map:
 		keys := v.MapKeys()
